@@ -7,6 +7,7 @@ import ArcSwapModel.Tie.HybridDrop
 import ArcSwapModel.Tie.HybridFallback
 import ArcSwapModel.Tie.HybridAttempt
 import ArcSwapModel.Tie.DebtPayAll
+import ArcSwapModel.Inv.AcctRun
 
 /-!
 # C02 — exact ownership accounting: no leak, no double release, tight reclamation
@@ -29,6 +30,27 @@ every shared state:
 * **tight reclamation**: the step that takes a count from 1 to 0 is the step that destroys the
   object (`destroyed_in_the_last_dec`); a count is never touched on a dead object without the
   machine entering a fault state (`count_ops_fault_on_dead`).
+
+**Conservation, step by step, for every shared state** (`Inv/Acct.lean`): with
+`potential(a) = strong count of a + number of debt slots naming a` and `units` the references a
+program counter accounts for (a published debt counts one), *every* step of `load` (both paths),
+guard drop, `Guard::into_inner`, the writer's walk with helping, `compare_and_swap` and `rcu`
+changes the potential (and what the containers hold) by exactly the change of the stepping thread's
+units — `C02_load_conserves`, `C02_guard_drop_conserves`, `C02_promotion_conserves`,
+`C02_walk_conserves`, `C02_cas_conserves`, `C02_rcu_conserves`.  No reference is created or lost by
+any step, whatever other threads have done; the only steps that move a reference between threads
+other than through a slot are the two ends of a hand-over, which move exactly the replacement
+(`C02_handover_gives`, `C02_handover_receives`).  Lifted to whole operations with the registers on
+the owners' side (`C02_step_conserves`: every micro-step of every thread) and to whole executions
+(`C02_global_ledger`: along every execution all of whose steps satisfy `StepOK`, for every value,
+strong count + debt slots naming it = containers + handles + guards denoting it + units of the
+operations in flight; `C02_quiescent_counts`: with no operation in flight and every slot empty the
+strong count is exactly the number of owners).  `StepOK` is what remains assumed: about the
+program (registers are not raced on, `mk` creates fresh containers, the pool is not exhausted),
+that no hand-over succeeds in the step (the pair of ends is stated separately), and local
+well-formedness of program counters (slot indices in range, the thread's node below `K`, nodes
+beyond `nNodes` untouched, a compare-and-swap's guard denotes `current`) whose invariance is not
+proved yet.
 
 The harness checks the global statement on every execution: at quiescence (all handles, guards and
 containers dropped) no object is alive, no count underflowed, every slot is `NONE` — and compares
@@ -102,5 +124,92 @@ theorem cas_drops_one (cfg : Cfg) (c cur new : Nat) (s : Shared) (l : Locals) (b
 
 example : ((decObj { heap := fun _ => { live := true, cnt := 1 } } 3).1.heap 3).live = false := by
   simp [decObj, upd]
+
+/-! ## Conservation (see the header) -/
+
+theorem C02_load_conserves (K : Nat) (cfg : Cfg) (c : Nat) (s : Shared) (l : Locals) (b : Bool) (lp : LP)
+    (hk : lp.ok) (hn : l.node.getD 0 < K) (hb : Beyond s) (hf : (stepLP cfg c s l b lp).1.fault = none) :
+    Cons K s (stepLP cfg c s l b lp).1 (uLP lp) (uLP (stepLP cfg c s l b lp).2.2.1) :=
+  stepLP_cons K cfg c s l b lp hk hn hb hf
+
+theorem C02_guard_drop_conserves (K : Nat) (s : Shared) (gd : GD) (hk : gd.ok K) (hf : (stepGD s gd).1.fault = none) :
+    Cons K s (stepGD s gd).1 (uGD gd) (uGD (stepGD s gd).2.1) :=
+  stepGD_cons K s gd hk hf
+
+theorem C02_promotion_conserves (K r : Nat) (s : Shared) (gi : GI) (hk : gi.ok K r)
+    (hf : (stepGI s gi).1.fault = none) : Cons K s (stepGI s gi).1 (uGI r gi) (uGI r (stepGI s gi).2.1) :=
+  stepGI_cons K r s gi hk hf
+
+theorem C02_walk_conserves (K : Nat) (cfg : Cfg) (p c : Nat) (s : Shared) (l : Locals) (b : Bool) (pp : PP)
+    (hk : pp.ok K) (hn : l.node.getD 0 < K) (hb : Beyond s)
+    (hnh : ∀ h r t m, pp = .h7 h r t m → (s.nodes h.who).control ≠ h.ctl)
+    (hf : (stepPP cfg p c s l b pp).1.fault = none) :
+    Cons K s (stepPP cfg p c s l b pp).1 (uPP p pp) (uPP p (stepPP cfg p c s l b pp).2.2.1) :=
+  stepPP_cons K cfg p c s l b pp hk hn hb hnh hf
+
+theorem C02_cas_conserves (K N : Nat) (cfg : Cfg) (c cur new : Nat) (s : Shared) (l : Locals) (b : Bool) (cp : CP)
+    (hk : cp.ok K cur) (hn : l.node.getD 0 < K) (hc : c < N) (hb : Beyond s)
+    (hnh : ∀ old h r t m, cp = .pay old (.h7 h r t m) → (s.nodes h.who).control ≠ h.ctl)
+    (hf : (stepCP cfg c cur new s l b cp).1.fault = none) :
+    ConsC K N s (stepCP cfg c cur new s l b cp).1 (uCP new cp) (uCP new (stepCP cfg c cur new s l b cp).2.2.1) :=
+  stepCP_cons K N cfg c cur new s l b cp hk hn hc hb hnh hf
+
+theorem C02_rcu_conserves (K N : Nat) (cfg : Cfg) (c : Nat) (s : Shared) (l : Locals) (b : Bool) (tries : Nat) (rp : RP)
+    (hk : rp.ok K) (hn : l.node.getD 0 < K) (hc : c < N) (hb : Beyond s)
+    (hnh : ∀ cur a old h r t m, rp = .cas cur a (.pay old (.h7 h r t m)) → (s.nodes h.who).control ≠ h.ctl)
+    (hroom : ∀ cur, rp = .attempt cur → ∀ v, (s.heap (alloc s v).2.1).cnt = 0)
+    (hf : (stepRP cfg c s l b tries rp).1.fault = none) :
+    ConsC K N s (stepRP cfg c s l b tries rp).1 (uRP rp) (uRP (stepRP cfg c s l b tries rp).2.2.1) :=
+  stepRP_cons K N cfg c s l b tries rp hk hn hc hb hnh hroom hf
+
+theorem C02_handover_gives (K : Nat) (cfg : Cfg) (p c : Nat) (s : Shared) (l : Locals) (b : Bool)
+    (h : HL) (r t m : Nat) (hx : (s.nodes h.who).control = h.ctl) (a : Nat) :
+    pot K (stepPP cfg p c s l b (.h7 h r t m)).1 a + uPP p (.h7 h r t m) a
+      = pot K s a + uPP p (stepPP cfg p c s l b (.h7 h r t m)).2.2.1 a + u r a :=
+  stepPP_handover_gives K cfg p c s l b h r t m hx a
+
+theorem C02_handover_receives (K : Nat) (cfg : Cfg) (c : Nat) (s : Shared) (l : Locals) (b : Bool)
+    (cand j r : Nat) (he : (s.nodes j).envelope = .ptr r) (a : Nat) :
+    pot K (stepLP cfg c s l b (.fr1 cand j)).1 a + uLP (.fr1 cand j) a + u r a
+      = pot K s a + uLP (stepLP cfg c s l b (.fr1 cand j)).2.2.1 a :=
+  stepLP_handover_receives K cfg c s l b cand j r he a
+
+/-- every micro-step of every thread conserves: potential, registers, the thread's units -/
+theorem C02_step_conserves (K N : Nat) (st : State) (t : Nat) (b : Bool)
+    (hk : (st.th t).op.ok K N st.sh) (hn : (st.th t).loc.node.getD 0 < K) (hb : Beyond st.sh)
+    (hnh : ∀ h r x m, (st.th t).op.pp? = some (.h7 h r x m) → (st.sh.nodes h.who).control ≠ h.ctl)
+    (hroom : ∀ v, (st.sh.heap (alloc st.sh v).2.1).cnt = 0)
+    (hnext : ∀ txt o rest, (st.th t).prog = (txt, o) :: rest →
+      o.below N ∧ (∀ c h, o = .mk c h → st.sh.cells c = none))
+    (hf : (microStep st t b).1.sh.fault = none) :
+    TCons K N st.sh (microStep st t b).1.sh (uOp (st.th t).op) (uOp ((microStep st t b).1.th t).op) :=
+  microStep_cons K N st t b hk hn hb hnh hroom hnext hf
+
+/-- **the global sum (conditional on `StepOK` for every step)** -/
+theorem C02_global_ledger (K N T : Nat) (cfg : Cfg) (progs : Nat → List (String × Op)) (sched : List (Nat × Bool))
+    (hg : GoodRun K N T (State.initial cfg progs) sched) :
+    Ledger K N T (run (State.initial cfg progs) sched) :=
+  C02_ledger K N T cfg progs sched hg
+
+theorem C02_quiescent_counts {K N T : Nat} {st : State} (h : Ledger K N T st)
+    (hidle : ∀ t, t < T → uOp (st.th t).op = fun _ => 0)
+    (hslots : ∀ n i, (st.sh.nodes n).fast i = .none ∧ (st.sh.nodes n).hslot = .none) (a : Nat) (ha : a ≠ 0) :
+    (st.sh.heap a).cnt = st.sh.regs N a :=
+  h.quiescent hidle hslots a ha
+
+/-- non-vacuity: the local well-formedness assumed by the conservation theorems holds of concrete
+    program counters on both read paths, of a walk in the middle of a node and of a
+    compare-and-swap about to exchange; and a concrete step really moves a unit: publishing a debt
+    raises the potential of exactly that address by one -/
+example : (LP.a3 5 2).ok ∧ (LP.f4 8 5).ok ∧ (PP.slot 0 3).ok 1 ∧ (CP.cx { ptr := 5, debt := some (0, 2) }).ok 1 5 := by
+  refine ⟨?_, trivial, ?_, rfl, ?_⟩
+  · show 2 < Consts.slotCnt; decide
+  · show 0 < 1; decide
+  · intro n idx h; simp only [Option.some.injEq, Prod.mk.injEq] at h
+    obtain ⟨rfl, rfl⟩ := h
+    exact ⟨by decide, by decide⟩
+
+example : pot 1 (stepLP {} 0 {} { node := some 0 } false (.pswap 5 2)).1 5 = pot 1 {} 5 + 1 := by
+  decide
 
 end C02
